@@ -210,8 +210,8 @@ def triggers(op: str, body: ast.expr):
     for n in ast.walk(body):
         if isinstance(n, ast.IfExp):
             ta, tb = _known_type(n.body), _known_type(n.orelse)
-            if ta is not None and tb is not None and (ta is tb or ({ta, tb} <= {int, float})):
-                continue  # both branches have a type that is evident from the text, and the types agree: must pass
+            if ta is not None and tb is not None and (ta is tb or ({ta, tb} <= {int, float, ANY})):
+                continue  # both branches have a type that is evident from the text (or evidently none at all), and they agree: must pass
             t.add("ifexp-types")
         if isinstance(n, ast.Constant) and (n.value is None or n.value is Ellipsis):
             t.add("non-transportable-constant")
@@ -238,6 +238,8 @@ def _known_type(n):
         return type(n.value) if n.value is not None and n.value is not Ellipsis else None
     if isinstance(n, (ast.Compare, ast.BoolOp)):
         return bool
+    if _evidently_untyped(n):
+        return ANY  # nothing can be known about it on a stream without type information: compatible with itself and with numbers
     if isinstance(n, (ast.Subscript, ast.Attribute)) and isinstance(n.value, ast.Dict):
         key = n.attr if isinstance(n, ast.Attribute) else (n.slice.value if isinstance(n.slice, ast.Constant) else None)
         import keyword
@@ -259,9 +261,23 @@ def _known_type(n):
         if ta is not None and tb is not None:
             if ta is tb:
                 return ta
-            if {ta, tb} <= {int, float}:
+            if {ta, tb} <= {int, float, ANY}:
                 return float
     return None
+
+
+ANY = "no-type-information"
+
+
+def _evidently_untyped(n):
+    """a variable, an attribute chain over one, a method call on one: on an untyped stream nothing is known about its type"""
+    if isinstance(n, ast.Name):
+        return True
+    if isinstance(n, ast.Attribute):
+        return _evidently_untyped(n.value)
+    if isinstance(n, ast.Call) and isinstance(n.func, ast.Attribute) and not n.keywords:
+        return _evidently_untyped(n.func.value) and n.func.attr not in ("Select", "Where", "SelectMany", "First", "Count")
+    return False
 
 
 def _is_boolean_combination(body):
